@@ -405,7 +405,19 @@ BEHAVIOUR_SHAPES = {
                "function M:m(...) return self == M, select('#', ...) end return M:m(g())",
                "function M.f() function M.g() return 1 end return M.g end return M.f()()"],
     METHOD: ["return o:m(1, 2)", "return ('abc'):len()", "local s1 = 'abc' return s1:len(), s1:sub(2)", "return o.y:n()",
-             "return (o):m(f())", "return o:m(o:m(1))", "o:m(g()) return 1", "return o:m 'lit'", "return o:m { 1 }"],
+             "return (o):m(f())", "return o:m(o:m(1))", "o:m(g()) return 1", "return o:m 'lit'", "return o:m { 1 }",
+             # receivers with an effect behind every wrapper the rule may look through (parentheses at any depth, casts,
+             # fields and calls of calls): the receiver is evaluated exactly once
+             "local function mk() ext_mk() return o end return (mk()):m(1)",
+             "local function mk() ext_mk() return o end return ((mk())):m(1)",
+             "local function mk() ext_mk() return o end return (((mk()))):m(2, 3)",
+             "local function mk() ext_mk() return o end return (mk() :: any):m(1)",
+             "local function mk() ext_mk() return o end return ((mk()) :: any):m()",
+             "local function mk() ext_mk() return o end return mk().y:n()",
+             "local function mk() ext_mk() return o end return ((mk()).y):n()",
+             "local function mk() ext_mk() return o end return ((mk() or o)):m(1)",
+             "local function mk() ext_mk() return { o } end return ((mk())[1]):m(1)",
+             "local function mk() ext_mk() return o end mk():m(mk():m(1)) return 1"],
     SQRT: ["return math.sqrt(4), math.sqrt(x)", "return 1 / math.sqrt(-0)", "return math.sqrt(-1/0)", "math.sqrt(f()) return 1",
            "local math = { sqrt = function(v1) ext_s(v1) return 7 end } return math.sqrt(2)", "return math.sqrt('4')",
            "return math.sqrt(math.sqrt(16))", "math.sqrt(f(), g()) return 2", "math.sqrt(t.x) return 3",
